@@ -299,8 +299,6 @@ def _render_batch(cases, header, runnable, extra_items=""):
     if runnable:
         body = "\n".join(f'    dxrt::run_case("{c.name}", {c.name}::run);' for c in cases)
         out.append("fn main() {\n    dxrt::init();\n" + body + "\n    dxrt::finish();\n}")
-    else:
-        out.append("fn main() {}")
     return "\n".join(out) + "\n"
 
 
@@ -357,7 +355,9 @@ def compile_batch(cases, workdir, tag, header="", runnable=True, metadata_only=F
         cmd = ["rustc", "--edition", EDITION, "--crate-name", tag, "-C", "opt-level=0", "-C", "debuginfo=0",
                "-C", "codegen-units=4", "--error-format=json", "--extern", f"derive_ex={so}",
                "--extern", f"dxrt={rt}", "-L", CACHE, src]
-        if metadata_only or not runnable:
+        if not runnable:
+            cmd += ["--crate-type", "lib", "--emit=metadata", "-o", os.path.join(workdir, f"lib{tag}.rmeta")]
+        elif metadata_only:
             cmd += ["--emit=metadata", "-o", os.path.join(workdir, f"lib{tag}.rmeta")]
         else:
             cmd += ["-o", exe]
